@@ -130,9 +130,13 @@ def plant_one_bad(rng, root):
         return None
     s, t = ts[-1] if rng.random() < 0.5 else rng.choice(ts)
     t.skip = False
-    kind = rng.choice(["fail", "signal", "exit3"])
+    kind = rng.choice(["fail", "signal", "exit3", "skipfail", "skipexpect"])
     if kind == "fail":
         t.body = [("c", 1), ("c", 0)]
+    elif kind == "skipfail":       # skip_test() does not leave the test: a later check still counts
+        t.body = [("c", 1), ("skip",), ("c", 0)]
+    elif kind == "skipexpect":     # ... and so does an expectation nobody met
+        t.body = [("skip",), ("expect",)]
     elif kind == "signal":
         t.body = [("c", 1), ("die", "sig", rng.choice(SIGNALS))]
     else:
